@@ -25,6 +25,14 @@ def _hexfile(wd):
     return path
 
 
+def _rm(path):
+    """Scratch file clean-up that cannot fail (a save task the library left running may still be renaming things)."""
+    try:
+        os.remove(path)
+    except OSError:
+        pass
+
+
 # ------------------------------------------------------------------ workers (fork)
 def _gen_worker(args):
     import logging
@@ -36,16 +44,14 @@ def _gen_worker(args):
         os.makedirs(persist_dir, exist_ok=True)
         pfile = os.path.join(persist_dir, f"p{seed}.{ext}")
         for suffix in ("", ".bak"):
-            if os.path.exists(pfile + suffix):
-                os.remove(pfile + suffix)
+            _rm(pfile + suffix)
     tr = gwgen.run_history(rng, ver, fl, steps, profile=profile, calls=calls, persist=pfile,
                            raising_cb=raising, hexfile=hexfile, **opts)
     tr["cfg"]["seed"] = seed
     tr["cfg"]["ext"] = ext
     if pfile:
         for suffix in ("", ".bak"):
-            if os.path.exists(pfile + suffix):
-                os.remove(pfile + suffix)
+            _rm(pfile + suffix)
     return tr
 
 
@@ -55,8 +61,7 @@ def _replay_worker(args):
     (ver, fl, lines, calls, acts, hexfile, persist_path, raising) = args
     if persist_path:
         for suffix in ("", ".bak"):
-            if os.path.exists(persist_path + suffix):
-                os.remove(persist_path + suffix)
+            _rm(persist_path + suffix)
     drv = Driver(ver, fl, Interner(), persistence_file=persist_path, raising_cb=raising)
     for (a, i) in acts:
         if a == "Recv":
@@ -85,8 +90,7 @@ def _replay_worker(args):
     drv.close()
     if persist_path:
         for suffix in ("", ".bak"):
-            if os.path.exists(persist_path + suffix):
-                os.remove(persist_path + suffix)
+            _rm(persist_path + suffix)
     return drv.trace({"source": "tlc-simulate"})
 
 
